@@ -182,6 +182,45 @@ def run(rep, tier, rng):
         elif any(it["kind"] in ("struct", "enum", "union") for it in o["items"]):
             rep.violation("C14|derive-entry|item-emitted", f"#[derive(Ex)] output contains a type definition: {r['item'][:300]}",
                           {"request": dict(r, expect_item=""), "meta": {"kind": "derive", "derived": [], "erring": False}, "detail": "item emitted by derive entry"})
+    # ---- E-run: items that reach the attribute macro with macro_rules! fragments inside (invisible groups cannot be written
+    # as text, so the in-process expansion never sees them): the re-emitted item must still mean what was written.
+    # Twin = the same definitions in the same macro without the attribute.
+    body1 = ("#[repr(u8)] pub enum E { A = $e, B = 2 * $e }\n pub struct S(pub [u8; 2 * $e]);\n"
+             " #[derive(Clone)] pub struct I(pub u8);\n impl ::core::ops::Add for I { type Output = I; fn add(self, r: I) -> I { I(self.0 + r.0 + 2 * $e) } }\n"
+             " pub fn obs() -> ::std::string::String { format!(\"{} {} {} {}\", E::A as u8, E::B as u8, ::core::mem::size_of::<S>(), (I(1) + I(1)).0) }")
+    body2 = (" pub struct P<'a>(pub &'a $t, pub ::std::boxed::Box<$t>);\n"
+             " pub fn obs() -> ::std::string::String { let p = P(&1u8, ::std::boxed::Box::new(2u8)); format!(\"{:?} {:?}\", p.0, p.1) }")
+    fcases = []
+    for body, kws, attr_sets in ((body1, ("#[repr(u8)] pub enum E", "pub struct S", "impl ::core::ops::Add for I"),
+                                  (("Clone", "Clone", "AddAssign"), ("", "", "AddAssign"), ("Clone, Debug", "Default", "AddAssign"))),
+                                 (body2, ("pub struct P",), (("",), ("Debug",)))):
+        for attrs in attr_sets:
+            marked = body
+            for kw, a in zip(kws, attrs):
+                marked = marked.replace(kw, (f"#[::derive_ex::derive_ex({a})] " if a else "#[::derive_ex::derive_ex] ") + kw, 1)
+            for inner, kind in ((marked, "case"), (body, "ctl")):
+                code = ("macro_rules! mk { ($e:expr, $t:ty) => { pub mod dx { " + inner + " } pub mod tw { " + body + " } } }\n"
+                        "mk!(1 + 2, dyn ::core::fmt::Debug + Send);\n"
+                        'pub fn run() { ::dxrt::ev!("frag", "got" => dx::obs(), "want" => tw::obs()); }')
+                fcases.append(C.Case(f"f{len(fcases)}", code, {"attrs": attrs, "kind": kind}))
+    ctls = [c for c in fcases if c.meta["kind"] == "ctl"]
+    _, fnotes = C.run_cases(fcases, "c14f", header="#![allow(warnings)]", batch_size=1)
+    for n in fnotes:
+        rep.inconcl(n)
+    for c in [c for c in fcases if c.meta["kind"] == "case"]:
+        if c.status == "inconclusive" or any(k.status != "ok" for k in ctls):
+            rep.inconcl("macro-fragment item: harness program (control) does not compile" if any(k.status != "ok" for k in ctls) else "macro-fragment item inconclusive")
+            continue
+        rep.evaluations += 1
+        rep.count("macro_fragment_items_compiled")
+        ev = next((e for e in c.events if e.get("k") == "frag"), None)
+        if c.status == "compile_fail":
+            d = next(x for x in c.diags if x["level"] == "error")
+            rep.violation("C14|macro-fragment-item|compile_fail", f"the item does not compile after passing through the attribute macro ({(d['message'] or '')[:120]}); without the attribute it does:\n{c.code[:500]}", {"code": c.code, "frag": True})
+        elif ev is None:
+            rep.inconcl("no observation in " + c.name)
+        elif ev["got"] != ev["want"]:
+            rep.violation("C14|macro-fragment-item|changed", f"the re-emitted item means something else: observed {ev['got']!r}, the same definitions without the attribute give {ev['want']!r}\n{c.code[:500]}", {"code": c.code, "frag": True})
     for k in (0, 1, 2):
         rep.sample({"attr": reqs[k]["attr"], "item": reqs[k]["item"], "expected_item": reqs[k]["expect_item"],
                     "erring": metas[k]["erring"]})
@@ -199,13 +238,23 @@ def run(rep, tier, rng):
                 "that the doc table assigns to a derived trait (token equality through one lexer) - also when the derivation "
                 "fails after the argument list was accepted; when the argument list itself is rejected the "
                 "item must survive modulo helper-named attributes. distinct_nontrivial = distinct (item kind, set of "
-                "attribute names expected to survive, errored?) classes.")
+                "attribute names expected to survive, errored?) classes. Plus compiled programs in which the items contain macro_rules! "
+                "fragments ($e:expr in a discriminant / array length / fn body, $t:ty behind `&` and in `Box<..>`): what the re-emitted items "
+                "mean (discriminant values, sizes, results) is compared with the same definitions without the attribute.")
     rep.assumptions = ["which helper attributes survive when the derive_ex argument list itself is rejected (the derived traits are then unknown) is unspecified and not judged",
                        "partial_eq with Eq-but-not-PartialEq derived is not generated (doc table vs trybuild disagree)"]
 
 
 def replay(rep, path):
     j = json.load(open(path))["replay"]
+    if j.get("frag"):
+        c = C.compile_single(j["code"], header="#![allow(warnings)]")
+        ev = next((e for e in c.events if e.get("k") == "frag"), None)
+        if c.status == "compile_fail" or (ev and ev["got"] != ev["want"]):
+            print(f"VIOLATION property=C14 replay={path}")
+            return 1
+        print("replay: no violation")
+        return 0
     o = C.expand([j["request"]])[0]
     r = judge(o, j["meta"])
     if r:
